@@ -237,10 +237,11 @@ def spellings (r : Except Err (List Tok)) : Except Err (List (List Nat)) :=
   | .ok ts => .ok (ts.map (·.text))
   | .error e => .error e
 
-/-- the spelling `a` lexes, alone, to exactly one token, and that token is spelled `a` -/
+/-- the spelling `a` is self-lexing: the first scanning step on `a` alone produces one token spelled `a` and consumes
+    everything (so `lex a` is exactly that one token: `Lemmas/LexSeq.selfLexing_lex`) -/
 def selfLexing (a : List Nat) : Bool :=
-  match lex a with
-  | .ok [t] => t.text == a
+  match lexStep a true false with
+  | .tok t [] => t.text == a
   | _ => false
 
 end ChibiVerif.Lex
